@@ -974,6 +974,9 @@ def run(ctx: Ctx) -> None:
         "threshold, alignment, shard limit, workers, backend, destination naming, injected failure); non-trivial = "
         "at least one initializer; distinct by the canonical case"
     )
+    import logging
+
+    logging.getLogger("onnx_ir").setLevel(logging.ERROR)
     # corpus first
     corpus = [c["case"] if "case" in c and "tensors" in c.get("case", {}) else c for c in load_corpus("C07")]
     corpus = [c for c in corpus if isinstance(c, dict) and "tensors" in c]
@@ -981,9 +984,6 @@ def run(ctx: Ctx) -> None:
         _compare(ctx, run_chunk(corpus))
         ctx.count("corpus_cases", len(corpus))
     part_a(ctx)
-    import logging
-
-    logging.getLogger("onnx_ir").setLevel(logging.ERROR)
     cases = grid_cases()
     if True:
         ctx.exhaustive_scopes.append("parameter grid of DESIGN 5/C07: 5 thresholds x 4 alignments x 5 shard limits x 3 "
